@@ -549,8 +549,32 @@ where
 	if make().last().as_ref() != expected.last() {
 		return fail("last()", format!("{:?}", make().last()));
 	}
-	if make().fold(0usize, |a, _| a + 1) != len {
-		return fail("fold", "a different number of items".to_string());
+	{
+		// internal iteration must visit the same items in the same order
+		let folded: Vec<T> = make().fold(Vec::new(), |mut a, x| {
+			a.push(x);
+			a
+		});
+		if folded != expected {
+			return fail("fold", format!("{:?}", folded));
+		}
+		let mut each = Vec::new();
+		make().for_each(|x| each.push(x));
+		if each != expected {
+			return fail("for_each", format!("{:?}", each));
+		}
+		// after a partial consumption too
+		if len >= 2 {
+			let mut it = make();
+			it.next();
+			let rest: Vec<T> = it.fold(Vec::new(), |mut a, x| {
+				a.push(x);
+				a
+			});
+			if rest != expected[1..] {
+				return fail("next() then fold", format!("{:?}", rest));
+			}
+		}
 	}
 	n_checks += 3;
 	for m in 0..=len.min(3) {
@@ -638,8 +662,40 @@ where
 			}
 		}
 	}
-	if make().rfold(0usize, |a, _| a + 1) != len {
-		return fail("rfold", "a different number of items".to_string());
+	{
+		let r: Vec<T> = make().rfold(Vec::new(), |mut a, x| {
+			a.push(x);
+			a
+		});
+		if r != want {
+			return fail("rfold", format!("{:?}", r));
+		}
+		let r: Vec<T> = make().rev().fold(Vec::new(), |mut a, x| {
+			a.push(x);
+			a
+		});
+		if r != want {
+			return fail("rev().fold", format!("{:?}", r));
+		}
+		let mut each = Vec::new();
+		make().rev().for_each(|x| each.push(x));
+		if each != want {
+			return fail("rev().for_each", format!("{:?}", each));
+		}
+		if make().rev().last().as_ref() != expected.first() {
+			return fail("rev().last()", format!("{:?}", make().rev().last()));
+		}
+		if len >= 2 {
+			let mut it = make();
+			it.next_back();
+			let r: Vec<T> = it.rfold(Vec::new(), |mut a, x| {
+				a.push(x);
+				a
+			});
+			if r != want[1..] {
+				return fail("next_back() then rfold", format!("{:?}", r));
+			}
+		}
 	}
 	Ok(n_checks)
 }
